@@ -27,6 +27,7 @@ package main
 import (
 	"bufio"
 	"bytes"
+	"crypto/tls"
 	"encoding/json"
 	"fmt"
 	"io"
@@ -44,6 +45,7 @@ import (
 
 	martian "github.com/google/martian/v3"
 	mlog "github.com/google/martian/v3/log"
+	"github.com/google/martian/v3/mitm"
 	"github.com/google/martian/v3/proxyutil"
 	"github.com/google/martian/v3/trafficshape"
 	"verifharness/hx"
@@ -610,18 +612,32 @@ func (t *teeConn) Read(b []byte) (int, error) {
 	return n, err
 }
 
-// runKeepAlive: K cfg* | q:<urlhex>:<rs>:<len>:<seed> ...
-// One keep-alive client connection to a martian proxy on a shaped listener;
-// the requests are sent one after the other on that connection.  OUT: st rx,
-// then per request  m<bits> hs<status> hl<n> ok|cut el<us> B<served hex> <delivered hex>
-// (or "skip" once the connection has been closed), then the final action counts.
+// runKeepAlive: K cfg* | mode:<plain|connect|mitm> item*
+//
+//	q:<urlhex>:<rs>:<len>:<seed>   a GET (through the proxy, or inside the MITM'd tunnel)
+//	t:<len>:<seed>                 (connect mode) after the blind CONNECT: ask the target for len bytes
+//
+// One client connection to a martian proxy on a shaped listener; the items are
+// run one after the other on that connection.  plain: proxy-form requests;
+// connect: q items first, then a blind CONNECT to a local target, then t items
+// through the tunnel; mitm: CONNECT, TLS handshake with the proxy's forged
+// certificate, q items inside the tunnel.
+// OUT: st rx, per q:  m<bits> hs<status> hl<n> ok|cut el<us> B<served hex> <delivered hex>,
+// per CONNECT: c<status>, per t: tok|tcut el<us> B<hex> <hex>, "skip" once the
+// connection is gone; then gl<goroutines alive after the client closed, relative
+// to before it connected> and the final action counts.
 func runKeepAlive(in []string) (out []string) {
 	defer func() {
 		if r := recover(); r != nil {
 			out = append(out, "PANIC")
 		}
 	}()
-	cfgToks, reqs := splitBar(in)
+	cfgToks, items := splitBar(in)
+	mode := "plain"
+	if len(items) > 0 && strings.HasPrefix(items[0], "mode:") {
+		mode = items[0][5:]
+		items = items[1:]
+	}
 	body, regs := buildJSON(cfgToks)
 	l, err := net.Listen("tcp", "127.0.0.1:0")
 	if err != nil {
@@ -630,98 +646,249 @@ func runKeepAlive(in []string) (out []string) {
 	tsl := trafficshape.NewListener(l)
 	h := trafficshape.NewHandler(tsl)
 	out = append(out, fmt.Sprintf("st%d", post(h, body)), rxBits(regs))
-	origin := &multiOrigin{bodies: map[string][]byte{}}
+	origin := &multiOrigin{}
 	px := martian.NewProxy()
 	px.SetRoundTripper(origin)
 	px.SetTimeout(5 * time.Second)
+	if mode == "mitm" {
+		mc := mitmConfig()
+		if mc == nil {
+			return append(out, "listen-failed")
+		}
+		px.SetMITM(mc)
+	}
+	var target net.Listener
+	if mode == "connect" {
+		target, err = net.Listen("tcp", "127.0.0.1:0")
+		if err != nil {
+			return append(out, "listen-failed")
+		}
+		go serveTarget(target)
+	}
 	go px.Serve(tsl)
 	defer func() {
 		px.Close()
 		tsl.Close()
+		if target != nil {
+			target.Close()
+		}
 	}()
+	time.Sleep(2 * time.Millisecond)
+	base := settle()
+
 	raw, err := net.Dial("tcp", l.Addr().String())
 	if err != nil {
 		return append(out, "dial-failed")
 	}
-	defer raw.Close()
-	tc := &teeConn{Conn: raw}
+	var cur net.Conn = raw // what requests are written to / responses read from
+	tc := &teeConn{Conn: cur}
 	br := bufio.NewReader(tc)
 	dead := false
-	for k, q := range reqs {
-		p := strings.Split(q, ":")
-		if len(p) != 5 || p[0] != "q" {
-			out = append(out, "badtok")
-			continue
-		}
-		if dead {
-			out = append(out, "skip")
-			continue
-		}
-		url := string(hx.MustUnHex(p[1]))
-		rs, _ := strconv.Atoi(p[2])
-		n, _ := strconv.Atoi(p[3])
-		seed, _ := strconv.ParseUint(p[4], 10, 64)
-		total := bodyBytes(seed, n)
-		origin.mu.Lock()
-		origin.bodies[fmt.Sprintf("%s#%d", url, k)] = total
-		origin.cur = total
-		origin.mu.Unlock()
-		m := "m"
-		for _, r := range regs {
-			if ok, _ := regexp.MatchString(r, url); ok {
-				m += "1"
-			} else {
-				m += "0"
-			}
-		}
-		req, _ := http.NewRequest("GET", url, nil)
-		if rs >= 0 {
-			req.Header.Set("Range", fmt.Sprintf("bytes=%d-", rs))
-		}
-		mark := len(tc.buf)
-		t0 := time.Now()
-		if err := req.WriteProxy(raw); err != nil {
-			out = append(out, "skip")
+	tunnel := false
+
+	connect := func(hostport string) string {
+		req, _ := http.NewRequest("CONNECT", "//"+hostport, nil)
+		req.Host = hostport
+		if err := req.Write(raw); err != nil {
 			dead = true
-			continue
+			return "c0"
 		}
-		raw.SetReadDeadline(time.Now().Add(15 * time.Second))
-		state := "ok"
-		status := 0
+		raw.SetReadDeadline(time.Now().Add(10 * time.Second))
 		res, err := http.ReadResponse(br, req)
 		if err != nil {
-			state = "cut"
-		} else {
-			status = res.StatusCode
-			if _, err := io.ReadAll(res.Body); err != nil {
-				state = "cut"
-			}
-			res.Body.Close()
+			dead = true
+			return "c0"
 		}
-		el := time.Since(t0)
-		got := append([]byte(nil), tc.buf[mark:]...)
-		if state == "cut" {
+		return fmt.Sprintf("c%d", res.StatusCode)
+	}
+
+	if mode == "mitm" {
+		st := connect("example:443")
+		out = append(out, st)
+		if st == "c200" {
+			tconn := tls.Client(raw, &tls.Config{InsecureSkipVerify: true, ServerName: "example", NextProtos: []string{"http/1.1"}})
+			raw.SetDeadline(time.Now().Add(10 * time.Second))
+			if err := tconn.Handshake(); err != nil {
+				dead = true
+				out = append(out, "handshake-failed")
+			}
+			raw.SetDeadline(time.Time{})
+			cur = tconn
+			tc = &teeConn{Conn: cur}
+			br = bufio.NewReader(tc)
+		} else {
 			dead = true
 		}
-		hl := bytes.Index(got, []byte("\r\n\r\n"))
-		if hl >= 0 {
-			hl += 4
-		}
-		served := total
-		if rs >= 0 && rs < n {
-			served = total[rs:]
-		}
-		out = append(out, m, fmt.Sprintf("hs%d", status), fmt.Sprintf("hl%d", hl), state, fmt.Sprintf("el%d", us(el)),
-			"B"+hx.Hex(served), hx.Hex(got))
 	}
-	out = append(out, dumpActions(tsl))
+
+	for _, it := range items {
+		p := strings.Split(it, ":")
+		switch {
+		case p[0] == "q" && len(p) == 5:
+			if dead {
+				out = append(out, "skip")
+				continue
+			}
+			url := string(hx.MustUnHex(p[1]))
+			rs, _ := strconv.Atoi(p[2])
+			n, _ := strconv.Atoi(p[3])
+			seed, _ := strconv.ParseUint(p[4], 10, 64)
+			total := bodyBytes(seed, n)
+			origin.mu.Lock()
+			origin.cur = total
+			origin.mu.Unlock()
+			m := "m"
+			for _, r := range regs {
+				if ok, _ := regexp.MatchString(r, url); ok {
+					m += "1"
+				} else {
+					m += "0"
+				}
+			}
+			req, _ := http.NewRequest("GET", url, nil)
+			if rs >= 0 {
+				req.Header.Set("Range", fmt.Sprintf("bytes=%d-", rs))
+			}
+			mark := len(tc.buf)
+			t0 := time.Now()
+			if mode == "mitm" {
+				err = req.Write(cur)
+			} else {
+				err = req.WriteProxy(cur)
+			}
+			if err != nil {
+				out = append(out, "skip")
+				dead = true
+				continue
+			}
+			raw.SetReadDeadline(time.Now().Add(15 * time.Second))
+			state := "ok"
+			status := 0
+			res, err := http.ReadResponse(br, req)
+			if err != nil {
+				state = "cut"
+			} else {
+				status = res.StatusCode
+				if _, err := io.ReadAll(res.Body); err != nil {
+					state = "cut"
+				}
+				res.Body.Close()
+			}
+			el := time.Since(t0)
+			got := append([]byte(nil), tc.buf[mark:]...)
+			if state == "cut" {
+				dead = true
+			}
+			hl := bytes.Index(got, []byte("\r\n\r\n"))
+			if hl >= 0 {
+				hl += 4
+			}
+			served := total
+			if rs >= 0 && rs < n {
+				served = total[rs:]
+			}
+			out = append(out, m, fmt.Sprintf("hs%d", status), fmt.Sprintf("hl%d", hl), state, fmt.Sprintf("el%d", us(el)),
+				"B"+hx.Hex(served), hx.Hex(got))
+		case p[0] == "t" && len(p) == 3:
+			if dead {
+				out = append(out, "skip")
+				continue
+			}
+			if !tunnel {
+				st := connect(target.Addr().String())
+				out = append(out, st)
+				if st != "c200" {
+					dead = true
+					out = append(out, "skip")
+					continue
+				}
+				tunnel = true
+			}
+			n, _ := strconv.Atoi(p[1])
+			seed, _ := strconv.ParseUint(p[2], 10, 64)
+			want := bodyBytes(seed, n)
+			t0 := time.Now()
+			fmt.Fprintf(raw, "%d %d\n", n, seed)
+			raw.SetReadDeadline(time.Now().Add(10 * time.Second))
+			got := make([]byte, n)
+			k, err := io.ReadFull(br, got)
+			state := "tok"
+			if err != nil {
+				state = "tcut"
+				dead = true
+			}
+			out = append(out, state, fmt.Sprintf("el%d", us(time.Since(t0))), "B"+hx.Hex(want), hx.Hex(got[:k]))
+		default:
+			out = append(out, "badtok")
+		}
+	}
+	cur.Close()
+	raw.Close()
+	// everything created for that connection has to go away
+	left := 0
+	for i := 0; i < 40; i++ {
+		left = settle() - base
+		if left <= 0 {
+			break
+		}
+		time.Sleep(10 * time.Millisecond)
+	}
+	out = append(out, fmt.Sprintf("gl%d", left), dumpActions(tsl))
 	return out
 }
 
+var (
+	mitmOnce sync.Once
+	mitmCfg  *mitm.Config
+)
+
+func mitmConfig() *mitm.Config {
+	mitmOnce.Do(func() {
+		ca, priv, err := mitm.NewAuthority("martian.proxy", "Martian Authority", time.Hour)
+		if err != nil {
+			return
+		}
+		mc, err := mitm.NewConfig(ca, priv)
+		if err != nil {
+			return
+		}
+		mitmCfg = mc
+	})
+	return mitmCfg
+}
+
+// serveTarget: the CONNECT target.  Per connection: lines "<len> <seed>\n", each
+// answered with bodyBytes(seed, len).
+func serveTarget(l net.Listener) {
+	for {
+		c, err := l.Accept()
+		if err != nil {
+			return
+		}
+		go func(c net.Conn) {
+			defer c.Close()
+			br := bufio.NewReader(c)
+			for {
+				line, err := br.ReadString('\n')
+				if err != nil {
+					return
+				}
+				var n int
+				var seed uint64
+				if _, err := fmt.Sscanf(line, "%d %d", &n, &seed); err != nil {
+					return
+				}
+				if _, err := c.Write(bodyBytes(seed, n)); err != nil {
+					return
+				}
+			}
+		}(c)
+	}
+}
+
 type multiOrigin struct {
-	mu     sync.Mutex
-	bodies map[string][]byte
-	cur    []byte
+	mu  sync.Mutex
+	cur []byte
 }
 
 func (o *multiOrigin) RoundTrip(req *http.Request) (*http.Response, error) {
